@@ -177,6 +177,8 @@ func renderRow(v int) string {
 		return "('x', 'rx')" // wrong type for the INT column
 	case v == -2:
 		return fmt.Sprintf("(7, '%s')", strings.Repeat("z", 450)) // row over the 400 byte limit
+	case v == 9:
+		return "('rn')" // the INT column is left out: NULL
 	case v == -3:
 		return "(7)" // column count mismatch
 	case v == -4:
@@ -187,7 +189,15 @@ func renderRow(v int) string {
 
 // bOf is the text column that goes with value v of the INT column; its length depends on v, so that an
 // UPDATE changes the encoded length of the row.
-func bOf(v int) string { return fmt.Sprintf("r%d%s", v, strings.Repeat("y", v%6)) }
+func bOf(v int) string {
+	if v == 9 {
+		return "rn"
+	}
+	if v < 0 {
+		return "rx"
+	}
+	return fmt.Sprintf("r%d%s", v, strings.Repeat("y", v%6))
+}
 
 func renderStmt(st Step) string {
 	switch st.A {
@@ -198,25 +208,33 @@ func renderStmt(st Step) string {
 		for _, v := range st.Rows {
 			rows = append(rows, renderRow(v))
 		}
+		if len(st.Rows) == 1 && st.Rows[0] == 9 {
+			return fmt.Sprintf("INSERT INTO %s (b) VALUES ('rn')", st.T)
+		}
 		return fmt.Sprintf("INSERT INTO %s (a, b) VALUES %s", st.T, strings.Join(rows, ", "))
 	case "update":
 		set := fmt.Sprintf("a = %d, b = '%s'", st.V, bOf(st.V))
-		if st.V < 0 {
+		if st.V == -2 {
+			set = fmt.Sprintf("b = '%s'", strings.Repeat("z", 450)) // the row would exceed the 400 byte limit
+		} else if st.V < 0 {
 			set = "a = 'x'"
 		}
-		q := fmt.Sprintf("UPDATE %s SET %s", st.T, set)
-		if st.W != 0 {
-			q += fmt.Sprintf(" WHERE a = %d", st.W)
-		}
-		return q
+		return fmt.Sprintf("UPDATE %s SET %s%s", st.T, set, whereOf(st.W))
 	case "delete":
-		q := fmt.Sprintf("DELETE FROM %s", st.T)
-		if st.W != 0 {
-			q += fmt.Sprintf(" WHERE a = %d", st.W)
-		}
-		return q
+		return fmt.Sprintf("DELETE FROM %s%s", st.T, whereOf(st.W))
 	}
 	return ""
+}
+
+// whereOf renders the specification's WHERE codes: 0 none, w < 100: a = w, w > 100: a >= w - 100
+func whereOf(w int) string {
+	switch {
+	case w == 0:
+		return ""
+	case w > 100:
+		return fmt.Sprintf(" WHERE a >= %d", w-100)
+	}
+	return fmt.Sprintf(" WHERE a = %d", w)
 }
 
 func parse(q string) (interface{}, error) {
@@ -289,6 +307,9 @@ func (w *World) observe() (map[string][]RowOut, []string) {
 		for _, r := range rows {
 			a, okA := r.Vals[ia].(int64)
 			b, okB := r.Vals[ib].(string)
+			if r.Vals[ia] == nil {
+				a, okA = 9, true // NULL in the INT column: the specification's value 9
+			}
 			if !okA || !okB {
 				probs = append(probs, fmt.Sprintf("table %s row %d: values %v", t, r.RowID, r.Vals))
 				continue
